@@ -56,6 +56,18 @@ def dump_tu(tu_path, out_json, extra_flags=()):
 FUNC_KINDS = ('FunctionDecl', 'CXXMethodDecl', 'CXXConstructorDecl', 'CXXDestructorDecl', 'CXXConversionDecl')
 REC_KINDS = ('CXXRecordDecl', 'ClassTemplateSpecializationDecl', 'ClassTemplatePartialSpecializationDecl')
 
+def _shape_hash(n):
+    """structural hash of an AST subtree, ignoring node ids and source ranges"""
+    import hashlib
+    h = hashlib.sha256()
+    def go(x):
+        h.update(repr((x.get('kind'), x.get('name'), x.get('opcode'), x.get('value'), (x.get('type') or {}).get('qualType'), (x.get('type') or {}).get('desugaredQualType'),
+                       x.get('castKind'), (x.get('referencedDecl') or {}).get('name'), (x.get('referencedDecl') or {}).get('kind'), ((x.get('referencedDecl') or {}).get('type') or {}).get('qualType'), x.get('valueCategory'), x.get('isArrow'))).encode())
+        for c in x.get('inner', []) or []:
+            h.update(b'('); go(c); h.update(b')')
+    go(n)
+    return h.hexdigest()
+
 class Index:
     def __init__(self, objs):
         self.by_id = {}          # id -> node (all decls)
@@ -74,6 +86,7 @@ class Index:
         self.lambda_expr = {}
         self.local_alias = {}
         self.lambda_map = {}
+        self.lambda_variants = {}
         for o in objs:
             self._walk(o, [], False, None)
         self._resolve()
@@ -204,7 +217,15 @@ class Index:
                 rec = c['inner'][0]
                 key = base
                 if base in self.records and self.records[base].get('id') != rec.get('id'):
-                    key = base[:-1] + ' inst ' + rec['id'][-6:] + ')'      # the same lambda in another instantiation of the enclosing template
+                    # the same lambda in another instantiation of the enclosing template: a separate record only when it
+                    # differs structurally (types, constants, callees) from the variants seen so far
+                    hsh = _shape_hash(rec)
+                    variants = self.lambda_variants.setdefault(base, [(_shape_hash(self.records[base]), base)])
+                    hit = [k for h, k in variants if h == hsh]
+                    if hit: key = hit[0]
+                    else:
+                        key = base[:-1] + ' inst ' + rec['id'][-6:] + ')'
+                        variants.append((hsh, key))
                 lam[base] = key
                 self.records.setdefault(key, rec)
                 self.qual[rec['id']] = key
